@@ -485,4 +485,201 @@ theorem rustc_offsets_lem {β} (ps : Nat) (packed : Bool) (align? : Option Nat) 
       exact alignUp_of_dvd size a h0 hmod
     · simpa using hsa
 
+/-! ## `type_definition::build`, unfolded -/
+
+theorem cast_ne_ok {α β} (e : Res α) (b : β) : (e.cast : Res β) ≠ .ok b := by
+  cases e <;> simp [Res.cast]
+
+def isFieldStmt (st : G.Stmt) : Bool := match st.field with | .field .. => true | .vftable _ => false
+
+theorem stmtStep_pending (reg : Registry) (scope : List Path) (acc acc' : StmtAcc) (ist : Nat × G.Stmt)
+    (h : stmtStep reg scope acc ist = .ok acc') :
+    acc'.pending.length = acc.pending.length + (if isFieldStmt ist.2 then 1 else 0) := by
+  obtain ⟨idx, st⟩ := ist
+  unfold stmtStep at h
+  simp only [] at h
+  unfold isFieldStmt
+  split at h
+  · rename_i vis name ty hf
+    simp only [hf, if_true]
+    split at h
+    · cases h
+    · split at h
+      · split at h
+        · cases h; simp
+        · exact absurd h (cast_ne_ok _ _)
+      · exact absurd h (cast_ne_ok _ _)
+  · rename_i fns hf
+    simp only [hf, Bool.false_eq_true, if_false, Nat.add_zero]
+    split at h
+    · cases h
+    · split at h
+      · split at h
+        · cases h; rfl
+        · exact absurd h (cast_ne_ok _ _)
+      · exact absurd h (cast_ne_ok _ _)
+
+theorem stmts_pending (reg : Registry) (scope : List Path) (l : List (Nat × G.Stmt)) (acc acc' : StmtAcc)
+    (h : Res.foldlM (stmtStep reg scope) acc l = .ok acc') :
+    acc'.pending.length = acc.pending.length + ((l.map (·.2)).filter isFieldStmt).length := by
+  induction l generalizing acc with
+  | nil => simp only [Res.foldlM] at h; cases h; simp
+  | cons x l ih =>
+    unfold Res.foldlM at h
+    split at h
+    · rename_i acc1 h1
+      have := stmtStep_pending reg scope acc acc1 x h1
+      rw [ih acc1 h, this]
+      simp only [List.map_cons, List.filter_cons]
+      split <;> simp <;> omega
+    all_goals cases h
+
+theorem zipIdx_swap_snd {α} (l : List α) (i : Nat) :
+    ((l.zipIdx i).map fun p => (p.2, p.1)).map (·.2) = l := by
+  induction l generalizing i with
+  | nil => rfl
+  | cons a l ih => simp [List.zipIdx_cons, ih]
+
+theorem resolveRegions_inv (s s1 : State) (owner : Path) (vis : Vis) (target : Option Nat)
+    (pending : List (Option Nat × Region)) (vfns : Option (List SFunc))
+    (regions : List Region) (vft : Option Vft) (size : Nat) (placed : List (Placed Region))
+    (h : resolveRegions s owner vis target pending vfns = (s1, .ok (regions, vft, size, placed))) :
+    ∃ vregion : Option Region,
+      resolve (vregion.map (toPField s1.reg none)) (pending.map fun p => toPField s1.reg p.1 p.2) target
+        = .ok (placed, size) ∧
+      nameRegions s1.reg 0 placed = .ok regions := by
+  unfold resolveRegions at h
+  simp only [] at h
+  split at h
+  · rename_i s1' vft' vregion hb
+    simp only [Prod.mk.injEq] at h
+    obtain ⟨rfl, h⟩ := h
+    refine ⟨vregion, ?_⟩
+    split at h
+    · rename_i placed' size' hr
+      split at h
+      · rename_i regions' hn
+        cases h
+        exact ⟨hr, hn⟩
+      · exact absurd h (cast_ne_ok _ _)
+    · exact absurd h (cast_ne_ok _ _)
+  · simp only [Prod.mk.injEq] at h
+    exact absurd h.2 (cast_ne_ok _ _)
+
+theorem buildType_inv (s s1 : State) (path : Path) (vis : Vis) (d : G.TypeDef) (r : Resolved)
+    (h : buildType s path vis d = (s1, .ok r)) :
+    ∃ (module : Mod) (ta : TypeAttrs) (sa : StmtAcc) (regions : List Region) (vft : Option Vft)
+      (placed : List (Placed Region)) (td : TypeDefn),
+      Res.foldlM (stmtStep s.reg module.scope) {} (d.stmts.zipIdx.map fun p => (p.2, p.1)) = .ok sa ∧
+      resolveRegions s path vis ta.targetSize sa.pending sa.vfns = (s1, .ok (regions, vft, r.size, placed)) ∧
+      alignCheck s1.reg.ps ta.packed ta.align placed r.size = .ok r.align ∧
+      r.inner = .type td ∧ td.regions = regions ∧ td.packed = ta.packed := by
+  unfold buildType at h
+  split at h
+  · simp only [Prod.mk.injEq] at h; exact absurd h.2 (by simp)
+  · rename_i module _
+    split at h
+    · simp only [Prod.mk.injEq] at h; exact absurd h.2 (by simp)
+    · rename_i doc _
+      split at h
+      · rename_i ta _
+        split at h
+        · rename_i sa hsa
+          split at h
+          · rename_i s1' regions vft size placed hrr
+            simp only [Prod.mk.injEq] at h
+            obtain ⟨rfl, h⟩ := h
+            split at h
+            · cases h
+            · split at h
+              · split at h
+                · split at h
+                  · split at h
+                    · rename_i alignment hal
+                      cases h
+                      exact ⟨module, ta, sa, regions, vft, placed, _, hsa, hrr, hal, rfl, rfl, rfl⟩
+                    · exact absurd h (cast_ne_ok _ _)
+                  · exact absurd h (cast_ne_ok _ _)
+                · exact absurd h (cast_ne_ok _ _)
+              · exact absurd h (cast_ne_ok _ _)
+          · simp only [Prod.mk.injEq] at h; exact absurd h.2 (cast_ne_ok _ _)
+        · simp only [Prod.mk.injEq] at h; exact absurd h.2 (cast_ne_ok _ _)
+      · simp only [Prod.mk.injEq] at h; exact absurd h.2 (cast_ne_ok _ _)
+
+theorem buildType_layout_lem (s s1 : State) (path : Path) (vis : Vis) (d : G.TypeDef) (r : Resolved)
+    (h : buildType s path vis d = (s1, .ok r)) :
+    ∃ (td : TypeDefn) (vptr : Option (PField Region)) (fields : List (PField Region)) (target align? : Option Nat)
+      (placed : List (Placed Region)),
+      r.inner = .type td
+      ∧ resolve vptr fields target = .ok (placed, r.size)
+      ∧ alignCheck s1.reg.ps td.packed align? placed r.size = .ok r.align
+      ∧ nameRegions s1.reg 0 placed = .ok td.regions
+      ∧ fields.length = (d.stmts.filter isFieldStmt).length := by
+  obtain ⟨module, ta, sa, regions, vft, placed, td, hsa, hrr, hal, hin, hreg, hpk⟩ :=
+    buildType_inv s s1 path vis d r h
+  obtain ⟨vregion, hres, hname⟩ := resolveRegions_inv _ _ _ _ _ _ _ _ _ _ _ hrr
+  refine ⟨td, _, _, ta.targetSize, ta.align, placed, hin, hres, by rw [hpk]; exact hal,
+    by rw [hreg]; exact hname, ?_⟩
+  have := stmts_pending _ _ _ _ _ hsa
+  rw [zipIdx_swap_snd] at this
+  simpa using this
+
+/-! ## `nameRegions` -/
+
+/-- what naming does to one placed region -/
+def NamedAs (reg : Registry) (p : Placed Region) (r' : Region) : Prop :=
+  match p.src with
+  | some r => r'.ty = r.ty ∧ (r.name.isSome → r' = r)
+  | none => ∃ t, reg.paddingType p.size = .ok t ∧ r'.ty = .data t ∧ r'.vis = .priv
+
+theorem nameRegions_cons_inv (reg : Registry) (off : Nat) (p : Placed Region) (ps : List (Placed Region))
+    (regions : List Region) (h : nameRegions reg off (p :: ps) = .ok regions) :
+    ∃ r' rs, regions = r' :: rs ∧ nameRegions reg (off + p.size) ps = .ok rs ∧ NamedAs reg p r' := by
+  unfold nameRegions at h
+  split at h
+  · rename_i r hr
+    simp only [] at h
+    split at h
+    · rename_i rs hrs
+      cases h
+      refine ⟨_, rs, rfl, hrs, ?_⟩
+      unfold NamedAs
+      split at hr
+      · rename_i r0 hsrc
+        cases hr
+        simp only [hsrc]
+        cases hn : r.name with
+        | none => simp
+        | some n => simp
+      · rename_i hsrc
+        simp only [hsrc]
+        split at hr
+        · rename_i t ht
+          cases hr
+          exact ⟨t, ht, by simp, by simp⟩
+        · exact absurd hr (cast_ne_ok _ _)
+    · rename_i hne
+      exact absurd h (hne _)
+  · exact absurd h (cast_ne_ok _ _)
+
+theorem nameRegions_types_lem (reg : Registry) (off : Nat) (placed : List (Placed Region)) (regions : List Region)
+    (h : nameRegions reg off placed = .ok regions) :
+    regions.length = placed.length ∧
+    ∀ k (hk : k < placed.length) (hk' : k < regions.length), NamedAs reg placed[k] regions[k] := by
+  induction placed generalizing off regions with
+  | nil =>
+    simp only [nameRegions] at h
+    cases h
+    exact ⟨rfl, fun k hk => by cases hk⟩
+  | cons p ps ih =>
+    obtain ⟨r', rs, rfl, hrs, hn⟩ := nameRegions_cons_inv reg off p ps regions h
+    obtain ⟨i1, i2⟩ := ih _ rs hrs
+    refine ⟨by simp [i1], ?_⟩
+    intro k hk hk'
+    cases k with
+    | zero => exact hn
+    | succ k =>
+      simp only [List.getElem_cons_succ]
+      exact i2 k (by simpa using hk) (by simpa using hk')
+
 end PyxisVerif.C01
